@@ -19,6 +19,8 @@ from e3lib import Drv, rows, row_paths, vtodo, rd, judge, split_mail, shim_event
 JOBS = ('silent', 'out3', 'err3', 'alt50', 'big', 'cat')
 EXITS = ('0', '3', 'term', 'kill')
 KNOBS = ('cwd', 'umask', 'shell', 'ifile', 'noorg', 'noatt', 'mailrun', 'att2')
+# clauses a knob can bear on; routing clauses do not carry the knob in their signature
+KNOB_CLAUSES = ('cwd', 'umask', 'stdin', 'shell', 'mail-unwanted', 'mail-count', 'mail-hdr', 'run-count', 'hang', 'echsx-died')
 SIZES = {'silent': (0, 0), 'out3': (192, 0), 'err3': (0, 192), 'alt50': (1600, 1600), 'big': (204800, 204800)}
 IFILE_TEXT = b''.join(bytes([97 + (i * 5 + i // 64) % 26]) if i % 64 != 63 else b'\n' for i in range(70000))
 
@@ -81,6 +83,16 @@ def main():
     return 0
 
 
+def sweep_tmp(d):
+    """remove what a run that never reached its own clean-up left in /tmp"""
+    for e in shim_events(rd(os.path.join(d, 'shim.log'))):
+        if e.startswith('mkstemp fd=') and not e.startswith('mkstemp fd=-'):
+            try:
+                os.unlink(e.split('path=', 1)[1])
+            except OSError:
+                pass
+
+
 def run_case(D, d, row, jobm, ex, knob, uid, echsx, shim, rec, job):
     cmd = 'exec %s %s %s %s' % (job, d, jobm, ex)
     k = {}
@@ -127,13 +139,12 @@ def run_case(D, d, row, jobm, ex, knob, uid, echsx, shim, rec, job):
                 pass
             p.wait()
             D.viol('hang/%s/%s/%s' % (row['name'], jobm, ex), 'echsx did not finish within %.0f s' % D.case_timeout)
+            sweep_tmp(d)
             return
     t1 = int(time.time())
     shape = '%s/%s' % (row['name'], 'big' if jobm == 'big' else 'small')
-    if knob:
-        shape += '/' + knob
     if rc < 0:
-        D.viol('echsx-died/%s/%s' % (shape, ex), 'echsx itself was killed by signal %d; stderr: %r' % (
+        D.viol('echsx-died/%s/%s%s' % (shape, ex, '/' + knob if knob else ''), 'echsx itself was killed by signal %d; stderr: %r' % (
             -rc, (rd(os.path.join(d, 'echsx.err')) or b'')[-300:]))
     # what the job says it wrote
     out, err = rd(os.path.join(d, 'exp.out')), rd(os.path.join(d, 'exp.err'))
@@ -188,6 +199,8 @@ def run_case(D, d, row, jobm, ex, knob, uid, echsx, shim, rec, job):
         sig = '%s/%s' % (clause, shape)
         if clause in ('journal-status', 'mail-status'):
             sig += '/' + ex
+        if knob and clause in KNOB_CLAUSES:
+            sig += '/' + knob
         D.viol(sig, detail)
     if len(exp['out']) + len(exp['err']) > 0 and (row['out'] or row['err'] or exp['mail']):
         D.nontrivial()
